@@ -134,7 +134,7 @@
    the suspended callers (10) - for ancestors it follows from MachineC07's layer structure but is not stated here.
    These are covered by the correspondence harness + monitors. *)
 From Asynq Require Import Machine Seq proofs.MachineC08 proofs.MachineC01 proofs.MachineDFS proofs.MachineC04
-     proofs.MachineC07 proofs.MachineC06T.
+     proofs.MachineC07 proofs.MachineC06T proofs.MachineC06X.
 
 Theorem C06_contexts_paused_at_every_flush_tree : forall P, pointwise P -> forall p, tree p -> forall n,
   let h := fst (create [] (FTask p) (st0 P)) in
@@ -241,6 +241,24 @@ Example C06_hypotheses_are_met :
   ctx_events [1] 1 (tr_at 200%nat) = [R [1]; Z [1]; R [1]; Z [1]].
 Proof. exact c06_demo_runs. Qed.
 Print Assumptions C06_hypotheses_are_met.
+
+(* A context whose pause() RAISES WHEN __exit__ MAKES IT (harness fault {"exit": e}; proofs/MachineC06X.v): for the model
+   this is a program whose Exit continuation is the error continuation on every exit path (Exit c (Raise e), or
+   Exit c (handler e) under a try) - a tree program with well-nested with-blocks, so (3)-(7) above apply: the pause made
+   on exit is the LAST event of the context also when it raised and the task, having caught the error, is suspended for
+   further flushes.  Non-vacuity on the minimal instance (block spans a suspension, exit fault 7 caught, one more yield of a
+   batch item): two flushes, the caught error is returned, and the context has exactly resume, pause, resume, pause. *)
+Example C06_exit_time_pause_fault_is_in_the_proved_class :
+  let P := mkP [] 1000 false [] in
+  let h := fst (create [] (FTask c06x_demo) (st0 P)) in
+  let s1 := snd (create [] (FTask c06x_demo) (st0 P)) in
+  let tr := trace (c_st (run P 200 (start h s1))) in
+  tree c06x_demo /\ wn [] c06x_demo /\ pointwise P /\ no_unwind_b P 200 (start h s1) = true /\
+  c_mode (run P 200 (start h s1)) = MDone (Ok (VTuple [VInt (-999); VInt 7])) /\
+  length (filter (fun e => match e with EvFlush _ _ _ => true | _ => false end) tr) = 2%nat /\
+  ctx_events [0] 1 tr = [EvResume [0] 1; EvPause [0] 1; EvResume [0] 1; EvPause [0] 1].
+Proof. exact c06x_demo_runs. Qed.
+Print Assumptions C06_exit_time_pause_fault_is_in_the_proved_class.
 
 (* ------------------------------------------------------------------ tree programs with synchronous calls *)
 From Asynq Require Import proofs.MachineC01S proofs.MachineDFSS.
